@@ -38,6 +38,8 @@ PLAN = {
  "C18_m1": [("C11", ["--only", "zz"])], "C18_m2": [("C11", ["--only", "zz"])], "C18_m3": [("C08", ["--only", "p256"])],
  "C18_m4": [("C09", ["--only", "jq255s"])],
  "C10_m1": [("C10", ["--tier", "thorough"])],
+ "C11_m1": [("C11", ["--only", "zz"])], "C11_m2": [("C11", ["--only", "theta"])],
+ "C11_m3": [("C11", ["--only", "split"]), ("C11", ["--only", "kani"])], "C11_m4": [("C11", ["--only", "kani"]), ("C11", ["--only", "split"])],
 }
 only = sys.argv[1:]
 for sd in sorted(glob.glob(os.path.join(V, "seeded", "*_m*"))):
